@@ -40,8 +40,16 @@ def finish(prop, a, results, units, world, t0, seed, run_harness, extra=None):
         mine = [o for o in r["obligations"] if prop in o.get("props", [])]
         obligations.extend(mine)
         info = r.get("info", {})
+        u = units.get(r["unit"])
+        fbase = []
+        if u is not None:
+            quals = [("rules." + u.task.name)] if hasattr(u, "task") else (getattr(u, "qualnames", None) or [r["unit"].split("[")[0]])
+            fbase = [q.split(".")[-1] for q in quals]
+        ex = world.reach(fbase) if fbase else []
         funcs.append({"function": r["unit"], "sha256_16": r.get("sha"), "paths": info.get("paths"),
-                      "obligations": len(mine), "wall_s": r.get("wall_s")})
+                      "obligations": len(mine), "wall_s": r.get("wall_s"),
+                      "callees_reachable_by_name(inlined unless stubbed by a contract)": [x for x in ex if x not in fbase][:40],
+                      "dropped_logger_statements": world.dropped_statements(ex) if ex else 0})
         for b in info.get("bounded", []):
             if prop in b.get("props", [prop]):
                 bounded.append(b)
@@ -149,8 +157,10 @@ def finish(prop, a, results, units, world, t0, seed, run_harness, extra=None):
     from contracts import manifest_info
     pinfo = manifest_info.PROPS.get(prop, {})
     level = pinfo.get("level", "proof")
+    with_vc = [o for o in obligations if o.get("vc_sample")]
+    pick = (with_vc[:3] + with_vc[len(with_vc) // 2:len(with_vc) // 2 + 2] + obligations[:2])[:6] or obligations[:6]
     samples = [{"obligation": o["name"], "status": o["status"], "paths": o.get("paths"), "queries": o.get("queries"),
-                "solver_s": o.get("solver_s")} for o in obligations[:6]]
+                "solver_s": o.get("solver_s"), "verification_condition": o.get("vc_sample")} for o in pick]
     trusted = [k + ": " + v for k, v in ASSUMPTIONS.items() if k in pinfo.get("assumptions", list(ASSUMPTIONS))]
     trusted += sorted(extra_assumptions)
     cov = {
